@@ -9,7 +9,7 @@ THEOREMS = ["Props.C07.c07_collect_next", "Props.C07.c07_ff", "Props.C07.c07_pre
 def run(check, tier):
     import run_suite as S
 
-    n = 600 if tier == "quick" else 12000
+    n = 1000 if tier == "quick" else 12000
     cases = [S.gen_case_methods(check.seed, i) for i in range(n)]
     results = run_cases("run_suite", "case_methods", cases, chunk=8)
     prof = {}
